@@ -28,7 +28,7 @@ import zlib
 
 from . import common, sessionlib
 
-KINDS = ('pass', 'failout', 'bind', 'probe', 'rebind', 'readg', 'leaveskip', 'leavereq', 'reportstyle', 'trail', 'swapout', 'filters', 'warns', 'reqsub', 'reqpkg')
+KINDS = ('pass', 'failout', 'bind', 'probe', 'rebind', 'readg', 'leaveskip', 'leavereq', 'reportstyle', 'trail', 'swapout', 'filters', 'warns', 'reqsub', 'reqpkg', 'bumpfail')
 BOUNDS = {'quick': dict(docs=3, hist=4, limit=10000), 'thorough': dict(docs=3, hist=4, limit=120000)}
 _J = {}
 
@@ -74,12 +74,18 @@ def _one(raw):
                     with warnings.catch_warnings():
                         warnings.simplefilter('default')
                         inner_filters = list(warnings.filters)
-                        s = e.run(verbose=0, on_error='return')
+                        # both ways of asking for errors rotate: a failing run that RAISES leaves by another path than one that returns
+                        s = e.run(verbose=0, on_error=['return', 'raise'][(rot + step) % 2])
                         if warnings.filters != inner_filters:
                             bad.append(('warning_filters_after_run[%d:%s]' % (step, kinds[i - 1]), 'restored', 'changed'))
                     got = 'failed' if s['failed'] else ('passed' if s['passed'] else 'skipped')
                 except BaseException as ex:
-                    got = 'skipped' if type(ex).__name__ == 'Skipped' else 'raised %r' % (ex,)     # pytest mode: everything skipped
+                    if type(ex).__name__ == 'Skipped':
+                        got = 'skipped'                  # pytest mode: everything skipped
+                    elif (rot + step) % 2 == 1 and isinstance(ex, Exception):
+                        got = 'failed'                   # on_error='raise': the failure leaves as an exception
+                    else:
+                        got = 'raised %r' % (ex,)
                 finally:
                     if sys.stdout is not sink:
                         bad.append(('stdout_after_run[%d:%s]' % (step, kinds[i - 1]), 'restored', 'replaced'))
@@ -140,7 +146,7 @@ def run(tier):
         if 'bad' in info:
             out.violation(sig(info), {'module_source': info['text'], 'history(index,env,predicted)': info['hist'], 'disagreements': info['bad']})
     common.cleanup_scratch()
-    for dev in ('ModuleDictAliased', 'ShallowDefaults', 'SharedRunstate', 'NoUnmatchedReset', 'NoFilterRestore', 'NegativeAnswerSpreads'):
+    for dev in ('ModuleDictAliased', 'ShallowDefaults', 'SharedRunstate', 'NoUnmatchedReset', 'NoFilterRestore', 'NegativeAnswerSpreads', 'NamespaceSurvivesFailure'):
         sessionlib.deviation_must_fail(out, dev, kinds=KINDS, maxdocs=2, mindocs=1, maxhist=3, commands=('all',), fronts=('native',))
     out.exhaustive = not out.extra.get('replay_sampled', False)
     out.assumptions = ['the solo outcome and stdout of each kind are known by construction (the same templates pass the C10/C15 front-end checks)',
